@@ -28,11 +28,11 @@ import (
 )
 
 type VerifC08Op struct {
-	Op    string   `json:"op"` // w | sw | run
+	Op    string   `json:"op"` // w | sw | run | drop (delete the sink dataset) | create (create it again)
 	K     int      `json:"k"`
 	Es    [][4]int `json:"es"` // [id, p, q, deleted]
 	Full  bool     `json:"full"`
-	Fault string   `json:"fault"` // none | sinkfail | sinkpanic | kill | diebefore | dieafter | srcfail
+	Fault string   `json:"fault"` // none | sinkfail | sinkpanic | kill | diebefore | dieafter | srcfail | sinkreject (at = entity id)
 	At    int      `json:"at"`
 }
 
@@ -41,6 +41,7 @@ type VerifC08Case struct {
 	Union   bool         `json:"union"`
 	Los     []bool       `json:"los"`
 	Batch   int          `json:"batch"`
+	Handlers []string    `json:"handlers"` // onError handlers of both triggers: requeue | rerun
 	Ops     []VerifC08Op `json:"ops"`
 }
 
@@ -83,6 +84,13 @@ func (s *verifC08Sink) processEntities(runner *Runner, entities []*server.Entity
 	s.calls++
 	if s.fault == "sinkfail" && i == s.at {
 		return errors.New("verif: scripted sink failure")
+	}
+	if s.fault == "sinkreject" {
+		for _, e := range entities {
+			if verifC08Tuple(e)[0] == s.at {
+				return errors.New("verif: sink rejects entity")
+			}
+		}
 	}
 	err := s.inner.processEntities(runner, entities)
 	if err != nil {
@@ -186,6 +194,9 @@ func verifC08Tuple(e *server.Entity) [4]int {
 }
 
 type verifC08Env struct {
+	jobs   map[string]*job // "incremental" / "fullsync": the job objects, built once like AddJob does and reused
+	sinks  map[string]*verifC08Sink
+	srcs   map[string]jobSource.Source
 	dir    string
 	cfg    *conf.Config
 	store  *server.Store
@@ -307,38 +318,87 @@ func VerifC08Run(c VerifC08Case, dir string) (obs VerifC08Obs) {
 	} else {
 		srcJSON = fmt.Sprintf(`{"Type":"DatasetSource","Name":"src0","LatestOnly":%v}`, c.Los[0])
 	}
+	hparts := make([]string, 0)
+	for _, h := range c.Handlers {
+		switch h {
+		case "requeue":
+			hparts = append(hparts, `{"errorHandler":"reQueue"}`)
+		case "rerun":
+			// the retry is scheduled a day ahead: it never fires while the case runs
+			hparts = append(hparts, `{"errorHandler":"reRun","maxRetries":100,"retryDelay":86400}`)
+		default:
+			return fail("case", errors.New("unknown handler "+h))
+		}
+	}
+	onError := ""
+	if len(hparts) > 0 {
+		onError = `,"onError":[` + strings.Join(hparts, ",") + `]`
+	}
 	jobJSON := fmt.Sprintf(`{"id":"%s","title":"%s","batchSize":%d,
-		"triggers":[{"triggerType":"cron","jobType":"incremental","schedule":"@every 2000s"},
-		            {"triggerType":"cron","jobType":"fullsync","schedule":"@every 4000s"}],
-		"source":%s,"sink":{"Type":"DatasetSink","Name":"sink"}}`, verifC08JobID, verifC08JobID, c.Batch, srcJSON)
+		"triggers":[{"triggerType":"cron","jobType":"incremental","schedule":"@every 2000s"%s},
+		            {"triggerType":"cron","jobType":"fullsync","schedule":"@every 4000s"%s}],
+		"source":%s,"sink":{"Type":"DatasetSink","Name":"sink"}}`, verifC08JobID, verifC08JobID, c.Batch, onError, onError, srcJSON)
 
-	runOnce := func(op VerifC08Op) (r VerifC08RunObs, fatal error) {
+	// the job objects are built once per process life by the scheduler's own code (verify +
+	// toTriggeredJobs, as AddJob does) and reused for every run, like cron / onchange triggers do
+	buildJobs := func() error {
 		jc, err := env.sched.Parse([]byte(jobJSON))
 		if err != nil {
-			return r, err
+			return err
 		}
+		if err := env.sched.verify(jc); err != nil {
+			return err
+		}
+		js, err := env.sched.toTriggeredJobs(jc)
+		if err != nil {
+			return err
+		}
+		env.jobs = map[string]*job{}
+		env.sinks = map[string]*verifC08Sink{}
+		env.srcs = map[string]jobSource.Source{}
+		for _, j := range js {
+			t := JobTypeIncremental
+			if j.pipeline.isFullSync() {
+				t = JobTypeFull
+			}
+			spec := j.pipeline.spec()
+			if _, ok := spec.sink.(*datasetSink); !ok {
+				return fmt.Errorf("sink is %T", spec.sink)
+			}
+			w := &verifC08Sink{inner: spec.sink, fault: "none", runner: env.runner, jobID: jc.ID}
+			spec.sink = w
+			env.jobs[t] = j
+			env.sinks[t] = w
+			env.srcs[t] = spec.source
+		}
+		if env.jobs[JobTypeIncremental] == nil || env.jobs[JobTypeFull] == nil {
+			return errors.New("triggers did not give both jobs")
+		}
+		return nil
+	}
+	if err := buildJobs(); err != nil {
+		return fail("jobs", err)
+	}
+
+	runOnce := func(op VerifC08Op) (r VerifC08RunObs, fatal error) {
 		jobType := JobTypeIncremental
 		if op.Full {
 			jobType = JobTypeFull
 		}
-		pl, err := env.sched.toPipeline(jc, jobType)
-		if err != nil {
-			return r, err
-		}
-		spec := pl.spec()
-		if _, ok := spec.sink.(*datasetSink); !ok {
-			return r, fmt.Errorf("sink is %T", spec.sink)
-		}
-		spec.sink = &verifC08Sink{inner: spec.sink, fault: op.Fault, at: op.At, runner: env.runner, jobID: jc.ID}
+		j := env.jobs[jobType]
+		w := env.sinks[jobType]
+		w.calls, w.fault, w.at, w.runner = 0, op.Fault, op.At, env.runner
+		spec := j.pipeline.spec()
+		spec.source = env.srcs[jobType]
 		if op.Fault == "srcfail" {
 			// (the wrapper hides the *DatasetSource type from FullSyncPipeline: a LatestOnly source is then not put
 			// into fullsync mode, which for a local dataset selects the same ProcessChanges call)
-			spec.source = &verifC08Source{inner: spec.source, fault: op.Fault, at: op.At}
+			spec.source = &verifC08Source{inner: env.srcs[jobType], fault: op.Fault, at: op.At}
 		}
-		j := &job{dsm: env.dsm, id: jc.ID, title: jc.Title, pipeline: pl, schedule: "@every 2000s", runner: env.runner}
+		jcID := verifC08JobID
 		hits := map[string]int{}
 		verifhook.SetHandler(func(name string, arg string) {
-			if arg != jc.ID {
+			if arg != jcID {
 				return
 			}
 			i := hits[name]
@@ -368,6 +428,9 @@ func VerifC08Run(c VerifC08Case, dir string) (obs VerifC08Obs) {
 			// the process is gone: only what was persisted survives
 			env.close()
 			env.open()
+			if err := buildJobs(); err != nil {
+				return r, err
+			}
 			r.Outcome = "died"
 		} else if r.Outcome == "" {
 			res := &jobResult{}
@@ -389,23 +452,22 @@ func VerifC08Run(c VerifC08Case, dir string) (obs VerifC08Obs) {
 			return r, err
 		}
 		r.Token = tok
-		sink := env.dsm.GetDataset("sink")
-		if sink == nil {
-			return r, errors.New("sink dataset gone")
-		}
 		r.Sink = make([][4]int, 0)
-		if _, err := sink.MapEntities("", -1, func(e *server.Entity) error {
-			r.Sink = append(r.Sink, verifC08Tuple(e))
-			return nil
-		}); err != nil {
-			return r, err
+		// the sink is what is registered under the NAME "sink" (nothing, while it is deleted)
+		if sink := env.dsm.GetDataset("sink"); sink != nil {
+			if _, err := sink.MapEntities("", -1, func(e *server.Entity) error {
+				r.Sink = append(r.Sink, verifC08Tuple(e))
+				return nil
+			}); err != nil {
+				return r, err
+			}
+			sort.Slice(r.Sink, func(a, b int) bool { return r.Sink[a][0] < r.Sink[b][0] })
+			sf, err := verifC08Feed(sink)
+			if err != nil {
+				return r, err
+			}
+			r.SinkLen = len(sf)
 		}
-		sort.Slice(r.Sink, func(a, b int) bool { return r.Sink[a][0] < r.Sink[b][0] })
-		sf, err := verifC08Feed(sink)
-		if err != nil {
-			return r, err
-		}
-		r.SinkLen = len(sf)
 		r.SrcLens = make([]int, c.Members)
 		for k := 0; k < c.Members; k++ {
 			f, err := verifC08Feed(env.dsm.GetDataset(verifC08SrcName(k)))
@@ -437,6 +499,14 @@ func VerifC08Run(c VerifC08Case, dir string) (obs VerifC08Obs) {
 			}
 			if err := ds.StoreEntities(ents); err != nil {
 				return fail("store", err)
+			}
+		case "drop":
+			if err := env.dsm.DeleteDataset("sink"); err != nil {
+				return fail("drop", err)
+			}
+		case "create":
+			if _, err := env.dsm.CreateDataset("sink", nil); err != nil {
+				return fail("create", err)
 			}
 		case "run":
 			r, err := runOnce(op)
